@@ -408,6 +408,8 @@ class Gen:
         if game == "base":
             inner = self.r.choice(["base", "osu", "osu", "qua", "bms"])
         prev_lists = None
+        # a StepMania set built from objects may give each chart a tempo list of its own (a file never does)
+        per_chart_bpms = game == "sm" and self.d.random() < self.sm_per_chart_bpms_p
         for i in range(n):
             lists, meta, keys = gen_chart(self.d, inner, self.hi, keys=7 if game == "o2j" else None)
             if game == "o2j" and prev_lists is not None and self.d.random() < 0.25:
@@ -416,7 +418,7 @@ class Gen:
 
                 lists = _copy.deepcopy(prev_lists)
             prev_lists = lists
-            if game == "sm":
+            if game == "sm" and not per_chart_bpms:
                 if shared_bpms is None:
                     shared_bpms = lists["bpms"]
                 lists["bpms"] = [dict(b) for b in shared_bpms]
@@ -503,6 +505,7 @@ class Gen:
 
     RATES = [0.5, 0.75, 1, 1.0, 1.1, 1.5, 2, 2.0, 1 / 3, 1.25]
     propless_chart_p = 0.0  # chance that a non-last chart of a generated set lacks holds / notes / tempo points
+    sm_per_chart_bpms_p = 0.0  # chance that the charts of a generated StepMania set do not share one tempo list
 
     def p_rate(self):
         h = self.pick("map", "mapset", pred=self._rate_ok)
@@ -802,6 +805,7 @@ class GenC12(Gen):
 
 
 class GenC08(Gen):
+    sm_per_chart_bpms_p = 0.35
     table = dict(map_new=8, mapset_new=4, map_edit_list=8, stack=3, stack_assign=4, stack_loc=3, rate=4, map_deepcopy=2,
                  convert=16, mutate_result=5, map_get_list=1, mapset_get_map=1)
     games = ["osu", "qua", "sm", "bms", "o2j"]
@@ -930,6 +934,23 @@ class GenC15(Gen):
             op["args"] = dict(override=self.r.choice([None, None, 150.0]))
         elif f == "hitsound_copy":
             t, _ = self._chart("osu", keys=keys)
+            if self.d.random() < 0.6:
+                # a target charted to the same song: its notes sit on offsets of the source (one per offset: fewer notes than
+                # a source chord has sounds, so some sounds overflow)
+                L = charts[0]["lists"]
+                src_offs = sorted({n_["offset"] for n_ in L["hits"] + L["holds"]})
+                tn = t["lists"]["hits"] + t["lists"]["holds"]
+                for n_, o in zip(tn, self.d.sample(src_offs, min(len(tn), len(src_offs)))):
+                    n_["offset"] = o
+                keep = set()
+                for k in ("hits", "holds"):
+                    rows = []
+                    for n_ in sorted(t["lists"][k], key=lambda x: x["offset"]):
+                        if (n_["offset"], n_["column"]) not in keep:
+                            keep.add((n_["offset"], n_["column"]))
+                            rows.append(n_)
+                    t["lists"][k] = rows
+                t["plans"] = {k: self._plan(len(v)) for k, v in t["lists"].items() if len(v) > 1}
             op["args"] = dict(tgt=t, permute=self.r.choice(["source", "target"]))
         return op
 
